@@ -326,6 +326,13 @@ def _deps(ctx, repo, tools) -> None:
     g.add_edge(b, s)              # unlabelled cycle
     g.add_edge(entry, t)          # handler-like block without label
     g.add_edge(t, t)
+    # X is controlled by two blocks that are no predicates: N1 (first in predecessor order) is only reached through
+    # a branch of A, N2 hangs below the entry - as the finally body after try / except in CPython 3.12
+    n1, n2, x = (_block(i, [_instr("NOP", i)], cond_jump=False) for i in (6, 7, 8))
+    g.add_edge(a, n1, **{key: False})
+    g.add_edge(n1, x)
+    g.add_edge(entry, n2)
+    g.add_edge(n2, x)
     fn = repo.func(CF, "ControlDependenceGraph.get_control_dependencies")
     fr = repo.func(CF, "ControlDependenceGraph.is_control_dependent_on_root")
     ctx.analysed(fn)
@@ -352,7 +359,8 @@ def _deps(ctx, repo, tools) -> None:
             ctx.fail("C07.deps", fn, f"{tag}: raises {exc.name}", stmt=tag)
             continue
         ctx.check("C07.deps", fn, got == want, f"{tag}: get_control_dependencies = {got}, expected {want}", what=f"{tag} = {want}", stmt=tag)
-    for node, want, what in ((a, True, "edge from the entry"), (t, True, "entry edge plus unlabelled self loop"), (s, False, "only reachable through a labelled edge"), (p, False, "labelled edge from a predicate")):
+    for node, want, what in ((a, True, "edge from the entry"), (t, True, "entry edge plus unlabelled self loop"), (s, False, "only reachable through a labelled edge"), (p, False, "labelled edge from a predicate"),
+                             (x, True, "two unlabelled controlling blocks, the first only below a branch, the second below the entry"), (n1, False, "block below a branch")):
         tag = f"[root {node.label}] {what}"
         try:
             got = root(node)
